@@ -142,9 +142,10 @@ def gen(rng, tier, info):
         # the failing line right below / above each pool statement
         cases.append(_case(head=[p], verb=3, site=0))
         cases.append(_case(tail=[p], verb=0, site=0))
-    for origin in ("module", "module-exec", "latin1"):
+    for origin in ("module", "module-exec", "latin1", "changed"):
         for v in (0, 1, 3):
             cases.append(_case(origin=origin, verb=v, head=[3, 7]))
+            cases.append(_case(origin=origin, verb=v, head=[4, 15], body=[2]))      # non-ASCII text in the file
     for rec in ("self", "mutual"):
         for d in ([1, 2, 3, 5, 60] if quick else [1, 2, 3, 4, 5, 8, 13, 30, 60]):
             for v in (1, 3):
@@ -157,7 +158,7 @@ def gen(rng, tier, info):
     if tier == "search":
         n_rand = 400
     for _ in range(n_rand):
-        origin = rng.choice(["file"] * 6 + ["exec:%d" % rng.randrange(len(FNAMES)), "module", "module-exec"])
+        origin = rng.choice(["file"] * 6 + ["exec:%d" % rng.randrange(len(FNAMES)), "module", "module-exec", "latin1", "changed"])
         cases.append(_case(
             head=[rng.randrange(len(POOL)) for _ in range(rng.randrange(0, 5))],
             body=[rng.randrange(len(BODY)) for _ in range(rng.randrange(0, 4))],
@@ -361,6 +362,10 @@ def run_program(c):
         site_line += 1
         with open(path, "wb") as f:
             f.write(src.encode("latin-1"))
+    elif origin == "changed":
+        path = os.path.join(d, "changed.py")
+        with open(path, "w", encoding="utf-8") as f:
+            f.write(src)
     elif origin == "module-exec":
         path = "<module-source>"
     else:
@@ -369,6 +374,10 @@ def run_program(c):
         code = compile(src.encode("latin-1"), path, "exec")
     else:
         code = compile(src, path, "exec")
+    if origin == "changed":
+        # the file is edited after it was loaded: what is on disk no longer tokenizes
+        with open(path, "w", encoding="utf-8") as f:
+            f.write("def broken(:\n    \'\'\'unterminated\n")
     ns = {"EXC": exc}
     if origin in ("module", "module-exec"):
         e = lns["entry_code"](code, ns)
